@@ -118,6 +118,9 @@ func (e *Exec) verifIntrinsic(caller *frame, name string, args []Value) Value {
 		if a, ok := args[0].(*AStr); ok {
 			return e.astrRunes(a)
 		}
+		if b, ok := args[0].(BStr); ok {
+			return bstrRuneCount(b)
+		}
 		return cBV(uint64(utf8.RuneCountInString(concStr(e, args[0]))), 64)
 	case "verifFoldEq":
 		return cBool(strings.EqualFold(concStr(e, args[0]), concStr(e, args[1])))
